@@ -1,9 +1,93 @@
 package main
 
 import (
-	_ "golang.org/x/tools/go/packages"
-	_ "golang.org/x/tools/go/ssa"
-	_ "golang.org/x/tools/go/ssa/ssautil"
+	"flag"
+	"fmt"
+	"os"
+	"strings"
 )
 
-func main() {}
+func main() {
+	if len(os.Args) < 2 {
+		fmt.Fprintln(os.Stderr, "usage: gvc <trace|check|list> ...")
+		os.Exit(2)
+	}
+	switch os.Args[1] {
+	case "trace":
+		cmdTrace(os.Args[2:])
+	case "list":
+		cmdList(os.Args[2:])
+	case "check":
+		cmdCheck(os.Args[2:])
+	default:
+		fmt.Fprintln(os.Stderr, "unknown command")
+		os.Exit(2)
+	}
+}
+
+func cmdList(args []string) {
+	fs := flag.NewFlagSet("list", flag.ExitOnError)
+	repo := fs.String("repo", "/repo", "")
+	fs.Parse(args)
+	p, err := LoadProgram(*repo, "verif")
+	if err != nil {
+		fmt.Fprintln(os.Stderr, err)
+		os.Exit(2)
+	}
+	for _, k := range p.sortedFuncKeys() {
+		fmt.Println(k)
+	}
+}
+
+func newExecutor(p *Program) *Executor {
+	return &Executor{Prog: p, MaxPaths: 20000, MaxDepth: 8, Unroll: 2, UsedEnv: map[string]bool{}, Inlined: map[string]bool{}, Summaries: map[string]bool{}, fset: p.Fset}
+}
+
+func cmdTrace(args []string) {
+	fs := flag.NewFlagSet("trace", flag.ExitOnError)
+	repo := fs.String("repo", "/repo", "")
+	verbose := fs.Bool("v", false, "")
+	fs.Parse(args)
+	p, err := LoadProgram(*repo, "verif")
+	if err != nil {
+		fmt.Fprintln(os.Stderr, err)
+		os.Exit(2)
+	}
+	for _, key := range fs.Args() {
+		fn := p.Funcs[key]
+		if fn == nil {
+			fmt.Println("no such function:", key)
+			continue
+		}
+		ex := newExecutor(p)
+		ex.Root = fn
+		ex.TypeHolds = defaultTypeHolds
+		ex.AssumeNonNil = defaultAssumeNonNil
+		st := NewState()
+		var fargs []Value
+		for _, prm := range fn.Params {
+			fargs = append(fargs, ex.paramValue(st, prm.Name(), prm.Type()))
+		}
+		outs := ex.Explore(fn, st, fargs, nil, 0)
+		fmt.Printf("== %s: %d paths (aborted=%q)\n", key, len(outs), ex.Aborted)
+		for i, o := range outs {
+			fmt.Printf("-- path %d panic=%v ret=%s bounded=%v\n", i, o.Panic, showValue(o.Ret), o.St.Bounded)
+			for _, e := range o.St.Trace {
+				fmt.Printf("     %s\n", e)
+			}
+			if *verbose {
+				for _, c := range o.St.PC {
+					fmt.Printf("     pc: %s\n", c)
+				}
+			}
+			for _, n := range o.St.Notes {
+				fmt.Printf("     note: %s\n", n)
+			}
+		}
+		var used []string
+		for k := range ex.UsedEnv {
+			used = append(used, k)
+		}
+		fmt.Println("env used:", strings.Join(used, "; "))
+	}
+}
